@@ -8,7 +8,10 @@ from common import fb, close, canon_hash
 ID = "C19"
 SECTIONS = []
 LEAN_MODULES = ["QExPy.Props.C19"]
-THEOREMS = ["QExPy.Plot.C19_placeholder"]
+THEOREMS = ["QExPy.Plot.C19_mask", "QExPy.Plot.C19_mask_none", "QExPy.Plot.C19_dataset_draw",
+            "QExPy.Plot.C19_linspace", "QExPy.Plot.C19_band", "QExPy.Plot.C19_function_range",
+            "QExPy.Plot.C19_curve_value", "QExPy.Plot.C19_domain", "QExPy.Plot.C19_order_independent",
+            "QExPy.Plot.C19_residual_panel", "QExPy.Plot.C19_hist", "QExPy.Plot.C19_label"]
 RULE = ("seeded plots of 1-5 objects added in random order: data sets (x/y uncertainties none / "
         "common / per point; names, units; passed as arrays, XYDataSet or MeasurementArrays; x-ranges "
         "with bounds exactly on points, between points, outside), functions (8 formula families, "
